@@ -3,12 +3,114 @@
 
 pub mod ast;
 pub mod consts;
+pub mod fmtgo;
+pub mod interp;
+#[path = "calib.rs"]
+pub mod calibrate;
 pub mod lex;
 pub mod num;
-pub mod parse;
 pub mod types;
 pub mod vet;
-pub mod fmtgo;
 
+/// `gomini::parse::parse_file` and the `ParseError` type.
+pub mod parse;
+
+pub use interp::{Event, Exit, PanicClass, RunConfig, RunResult, Sched};
 pub use parse::ParseError;
 pub use vet::{VetError, VetReport};
+pub use calibrate::{calibrate as calibrate_corpus, CalibrationReport};
+
+const BIG_STACK: usize = 256 << 20;
+
+/// Runs `f` on a thread with a large stack (the recursive passes are depth
+/// limited, this is a second line of defence); falls back to the calling
+/// thread if the thread cannot be created.
+fn with_big_stack<T: Send, F: FnOnce() -> T + Send>(f: F) -> T {
+    let mut slot: Option<F> = Some(f);
+    let res = std::thread::scope(|s| {
+        let fref = &mut slot;
+        let h = std::thread::Builder::new().stack_size(BIG_STACK).spawn_scoped(s, move || {
+            let f = fref.take().unwrap();
+            f()
+        });
+        match h {
+            Ok(h) => h.join().ok(),
+            Err(_) => None,
+        }
+    });
+    match res {
+        Some(v) => v,
+        None => match slot.take() {
+            Some(f) => f(),
+            None => panic!("gomini worker thread panicked"),
+        },
+    }
+}
+
+/// Parses Go source text.
+pub fn parse(src: &str) -> Result<ast::File, ParseError> {
+    with_big_stack(|| parse::parse_file(src))
+}
+
+/// Statically checks a parsed file.
+pub fn vet(file: &ast::File) -> VetReport {
+    with_big_stack(|| vet::check(file).0)
+}
+
+/// Parses and checks source text; parse errors are mapped to the kinds
+/// `syntax`, `keyword-as-ident`, or to `unsupported`.
+pub fn vet_source(src: &str) -> VetReport {
+    match parse(src) {
+        Ok(f) => vet(&f),
+        Err(e) => {
+            let mut r = VetReport::default();
+            match &e {
+                ParseError::Syntax { line, msg, .. } => r.errors.push(VetError { kind: e.kind(), line: *line, msg: msg.clone() }),
+                ParseError::Unsupported { line, what } => r.unsupported.push(format!("line {}: {}", line, what)),
+            }
+            r
+        }
+    }
+}
+
+/// Type-checks, compiles and runs the program.
+pub fn run(file: &ast::File, cfg: &RunConfig) -> RunResult {
+    with_big_stack(|| interp::run_inline(file, cfg))
+}
+
+/// Depth-first enumeration of schedules: every run is replayed from a
+/// script prefix; alternatives are taken from the recorded choice points.
+/// At most `max_runs` runs are performed.
+pub fn enumerate_schedules(file: &ast::File, base: &RunConfig, max_runs: usize) -> Vec<RunResult> {
+    enumerate_schedules_bounded(file, base, max_runs, usize::MAX)
+}
+
+/// Like `enumerate_schedules`, but only the first `max_depth` choice points
+/// of a run are branched on.
+pub fn enumerate_schedules_bounded(file: &ast::File, base: &RunConfig, max_runs: usize, max_depth: usize) -> Vec<RunResult> {
+    let mut results = Vec::new();
+    let mut work: Vec<Vec<u32>> = vec![Vec::new()];
+    while let Some(prefix) = work.pop() {
+        if results.len() >= max_runs {
+            break;
+        }
+        let cfg = RunConfig { step_budget: base.step_budget, sched: Sched::Script(prefix.clone()), max_output: base.max_output, trace_calls: base.trace_calls };
+        let r = run(file, &cfg);
+        // branch on the choice points after the prefix (deepest first so that
+        // the work list behaves like a DFS stack)
+        let upto = r.sched_choices.len().min(max_depth);
+        for i in prefix.len()..upto {
+            let (n, chosen) = r.sched_choices[i];
+            for alt in 0..n {
+                if alt == chosen {
+                    continue;
+                }
+                let mut p: Vec<u32> = r.sched_choices[..i].iter().map(|c| c.1).collect();
+                p.push(alt);
+                work.push(p);
+            }
+        }
+        results.push(r);
+    }
+    results
+}
